@@ -56,6 +56,7 @@ theorem minv_getDifference {O log keys org start} (hO : GoodOrders O) (hS : Scn 
     simp only
     cases hans : (m2.w.commonDiff m2.pts.state m2.qts.state).2 with
     | empty => simpa using h3
+    | error => simpa using h3
     | tooLong p =>
       simp only
       rw [hO.diffTooLong, shape_tooLong.1]
@@ -129,7 +130,10 @@ theorem minv_chGetDifference {O log keys org start} (hO : GoodOrders O) (hS : Sc
         (by rw [hlog, h1.c0 c hk]; exact fun e he hk' => (hS.above _ hk e he hk').1) b.state
       dsimp only at honest
       rw [hlog] at honest
-      rcases chanDiff_cases m1.w c b.state with ⟨p, hans⟩ | ⟨hans, hcand⟩ | hans
+      rcases chanDiff_cases m1.w c b.state with hans | ⟨p, hans⟩ | ⟨hans, hcand⟩ | hans
+      · -- a transient error
+        rw [hans]
+        simpa using h2
       · -- too long
         rw [hans]
         simp only
